@@ -30,9 +30,20 @@ struct Case {
 
 fn gen_stream(c: &mut dyn Choices, result: bool) -> Vec<SEv> {
   let long = c.pick(8) == 0;
-  let n = if long { 30 + c.pick(12) } else { c.pick(7) };
+  let n = if long { crate::ast::pick_size(c, 30, 12, &[65, 130, 260]) } else { c.pick(7) };
   let mut out = vec![];
   let mut id = 0;
+  if n > 45 {
+    // very long: all items ready (one pick per item would outrun the tape), optionally ended by an error
+    for _ in 0..n {
+      id += 1;
+      out.push(SEv::Item(V::I(id)));
+    }
+    if result && c.pick(3) == 0 {
+      out.push(SEv::Fail(E(5)));
+    }
+    return out;
+  }
   for _ in 0..n {
     let r = c.pick(if long { 40 } else { 8 });
     out.push(if r == 0 {
